@@ -41,10 +41,16 @@ def stmt(z, rng):
     def add(clause, what, inp):
         out.append({"key": {"clause": clause, "Z": int(z)}, "what": what, "input": dict(inp, Z=int(z))})
     w = float(10 ** rng.uniform(-1, np.log10(300)))
-    if el.dr_cs.size == 0:
-        v = ebisim.drxs_vec(el, 1234.5, w)
-        if np.any(v != 0) or v.shape != (z + 1,):
-            add("no_data_zero", f"drxs_vec of Z={z} (no DR data) is not identically zero", {"E": 1234.5, "w": w})
+    import os
+    has_file = os.path.exists(os.path.join(os.path.dirname(ebisim.__file__), "resources", "drdata", f"DR_{z}.csv"))
+    if not has_file:
+        # "identically zero for elements without data": probe generic energies and any resonance energy the Element (wrongly) carries
+        probes = [1234.5, 50.0, 9.9e4] + [float(x) for x in el.dr_e_res[:: max(1, el.dr_e_res.size // 8)]]
+        for E in probes:
+            v = ebisim.drxs_vec(el, E, w)
+            if np.any(v != 0) or v.shape != (z + 1,):
+                add("no_data_zero", f"drxs_vec(Z={z}, E={E!r}, fwhm={w!r}) is not identically zero although the package ships no DR data for Z={z} (max {v.max()!r})", {"E": E, "w": w})
+                break
         return out
     if el.dr_cs.min() < 1 or el.dr_cs.max() > z or (el.dr_strength < 0).any() or (el.dr_e_res <= 0).any():
         add("table_range", f"DR table of Z={z} has a charge state outside 1..Z, a negative strength or a non-positive energy", {})
